@@ -213,6 +213,19 @@ def item_errors(name, dtype, xi, got_t, got_m, want_t, want_m):
     return out
 
 
+def fast_nums(rep):
+    """reply `ok m:e m:e …` -> floats (int -> float is correctly rounded and ldexp is exact, so this is the nearest double of the
+    192-bit value; much cheaper than going through Fraction for 10^6 numbers)"""
+    toks = rep.split()
+    if not toks or toks[0] != "ok":
+        raise common.InfraError(f"model error reply: {rep[:120]}")
+    out = []
+    for t in toks[1:]:
+        m_, e_ = t.split(":")
+        out.append(math.ldexp(float(int(m_)), int(e_)))
+    return out
+
+
 def bad_blocks(errs):
     return {k: (v if math.isfinite(v) else "inf") for k, v in errs.items() if not (v <= 1.0)}
 
@@ -262,6 +275,13 @@ def run_impl(name, dtype, rows64, shape, api=0, mode=0, own=False):
     elif api == 6 and len(shape) >= 2:   # transposed batch dims
         big = data.transpose(0, 1).contiguous()
         data = big.transpose(0, 1)
+    elif api == 10 and len(shape) >= 2:   # batch dims with fully reversed (permuted) strides: storage built in reversed dim order, viewed back
+        rev = list(range(len(shape)))[::-1]
+        big = data.permute(*rev, len(shape)).contiguous()
+        data = big.permute(*rev, len(shape))
+    elif api == 11 and len(shape) >= 3:   # cyclically permuted batch strides (movedim)
+        big = data.movedim(0, len(shape) - 1).contiguous()
+        data = big.movedim(len(shape) - 1, 0)
     elif api == 7 and rows64 and all(r == rows64[0] for r in rows64):   # expanded (stride 0) batch
         big = torch.tensor(rows64[0], dtype=torch.float64).to(D)
         data = big.expand(tuple(shape) + (a,))
@@ -391,7 +411,7 @@ def compare_all(ctx: Ctx, lines, metas):
     for rep, (case, i, gt, gm) in zip(reps, metas):
         name, dtype = case["type"], case["dtype"]
         g = U.GDIM[name]
-        w = U.fl(common.reply_nums(rep))
+        w = fast_nums(rep)
         errs = item_errors(name, dtype, case["X"][i], gt, gm, w[:g], w[g:])
         for k2, v in errs.items():
             key = f"{dtype}.{k2}"
@@ -415,7 +435,7 @@ def compare_all(ctx: Ctx, lines, metas):
             g = U.GDIM[name]
             ok = False
             for rep in r2[2 * j:2 * j + 2]:
-                w = U.fl(common.reply_nums(rep))
+                w = fast_nums(rep)
                 if not bad_blocks(item_errors(name, dtype, case["X"][i], gt, gm, w[:g], w[g:])):
                     ok = True
             ctx.count("near-threshold-retries")
@@ -447,12 +467,12 @@ def measure_rounded(ctx: Ctx, reps, metas):
         name, dtype = case["type"], case["dtype"]
         e = common.EPS[dtype]
         n, g = U.MATN[name], U.GDIM[name]
-        w = U.fl(common.reply_nums(reps[k]))
+        w = fast_nums(reps[k])
         q, qm = gt[U.QSL[name]], w[:g][U.QSL[name]]
         gq = min(max(abs(a - b) for a, b in zip(q, qm)), max(abs(a + b) for a, b in zip(q, qm)))
         s_st = gt[U.SIDX[name]] if U.SIDX[name] is not None else 1.0
         gs = abs(s_st - w[U.SIDX[name]]) / w[U.SIDX[name]] if U.SIDX[name] is not None else 0.0
-        Mx = U.fl(common.reply_nums(rep))          # exact matrix of the stored element
+        Mx = fast_nums(rep)          # exact matrix of the stored element
         gM = max(abs(gm[r * n + c] - Mx[r * n + c]) for r in range(3) for c in range(3)) / abs(s_st)
         wq[dtype] = max(wq.get(dtype, 0.0), gq / e)
         ws[dtype] = max(ws.get(dtype, 0.0), gs / e)
@@ -538,7 +558,7 @@ def run_random(ctx: Ctx, n_batches, lines, metas):
             shape = (rng.randint(2, 12),)
         n = int(math.prod(shape))
         rows = [gen_item(rng, name, e) for _ in range(n)]
-        check_batch(ctx, "random", name, dtype, rows, shape, rng.randrange(10), lines, metas,
+        check_batch(ctx, "random", name, dtype, rows, shape, rng.randrange(12), lines, metas,
                     mode=rng.choice([0, 0, 0, 1, 2, 3, 4, 5, 6, 7]), own=rng.random() < 0.3)
 
 
@@ -655,7 +675,7 @@ def _corpus_batches():
             yield name, dtype, reps[::-1], (4, 2), 5
             # grad modes x operand types x memory layouts (varied together), outputs must own their memory
             for mode in range(8):   # mode 8 (user subclass of LieTensor) cannot even be constructed on the clean tree: observation only
-                for api in (0, 1, 3, 5, 9):
+                for api in ((0, 1, 3, 5, 9) if mode in (0, 1, 4) else (0, 5)):
                     yield name, dtype, reps, (len(reps),), api, mode, True
                 yield name, dtype, reps, (2, 4), 6, mode, True
                 yield name, dtype, [reps[4]] * 3, (3,), 7, mode, True
@@ -806,6 +826,93 @@ def run_corpus(ctx: Ctx, lines, metas):
 
 
 
+
+
+# ----------------------------------------------------------------------------- layout x regime-minority x size (class 39 / 41)
+
+def minority_batches(quick=False):
+    """seed independent: 2-D / 3-D lshapes of 20..64 items in which ONE / A FEW (<= 1/8) / MOST items are EXACTLY degenerate in one
+    block (rotation, scale, translation, all) and the rest generic; yields (name, dtype, rows, shape, degenerate indices)"""
+    d = CORNER_DIRS[1]
+    for dtype in ("float64", "float32"):
+        for name in U.GROUPS:
+            has_s, has_t = name in ("RxSO3", "Sim3"), name in ("SE3", "Sim3")
+            blocks = ["rot", "all"] + (["scale"] if has_s else []) + (["trans"] if has_t else [])
+            for shape in (((6, 4), (2, 3, 4), (4, 4, 4)) if quick else ((6, 4), (9, 5), (2, 3, 4), (4, 4, 4), (3, 7), (2, 2, 8))):
+                n = int(math.prod(shape))
+                for kdeg in (1, max(1, n // 8), n - 2):
+                    for block in blocks:
+                        deg = sorted({(3 + 7 * j) % n for j in range(kdeg)} | ({n - 1} if kdeg > 1 else set()))[:kdeg] if kdeg < n - 2 \
+                            else [i for i in range(n) if i not in (1, n // 2)]
+                        rows = []
+                        for i in range(n):
+                            th = 0.3 + 0.07 * (i % 29)
+                            sg = (0.2 + 0.05 * (i % 23)) * (-1) ** i
+                            tau = [1.0 + 0.1 * i, -2.0 + 0.05 * i, 0.5 * (-1) ** i]
+                            if i in deg:
+                                if block in ("rot", "all"):
+                                    th = 0.0
+                                if block in ("scale", "all"):
+                                    sg = 0.0
+                                if block in ("trans", "all"):
+                                    tau = [0.0, 0.0, 0.0]
+                            rows.append((tau if has_t else []) + [th * d[0], th * d[1], th * d[2]] + ([sg] if has_s else []))
+                        yield name, dtype, rows, shape, deg, f"{block}:{kdeg}/{n}"
+
+
+def run_minority(ctx: Ctx, lines, metas):
+    """every entry point on batches whose batch dimensions have PERMUTED strides, with exactly-degenerate items in minority and in
+    majority: the batched result of each layout must equal, bit for bit, the result on the contiguous clone; the degenerate items
+    (and two generic ones) must equal the same call on that item ALONE; those items also go to the model (and the mpmath oracle on
+    the same batch and layout if they disagree)."""
+    P = U.pp()
+    for name, dtype, rows, shape, deg, tag in minority_batches(ctx.quick):
+        e = common.EPS[dtype]
+        g, m = U.GDIM[name], U.MATN[name]
+        r64 = U.to_dtype_exact(rows, dtype)[1].tolist()
+        n = len(r64)
+        ref = None
+        for api in (0, 10, 6, 11):
+            if api == 11 and len(shape) < 3:
+                continue
+            case = {"stream": "minority", "type": name, "dtype": dtype, "shape": list(shape), "api": api, "mode": 0, "own": False, "X": r64,
+                    "composition": tag}
+            try:
+                T, M, problems, x = run_impl(name, dtype, r64, shape, api)
+            except Exception as ex:
+                ctx.fail(case, f"raises: Exp/matrix on {U.ALG[name]} {dtype} shape {tuple(shape)} (layout {api}, {tag} degenerate) raised "
+                               f"{type(ex).__name__}: {str(ex)[:140]}")
+                continue
+            for pr in problems:
+                ctx.fail(case, pr)
+            if T is None:
+                continue
+            ctx.count(f"minority.{U.ALG[name]}.layout{api}")
+            nf = (~torch.isfinite(T)).any(dim=1) | (~torch.isfinite(M)).any(dim=1)
+            if bool(nf.any()):
+                i = int(nf.nonzero()[0])
+                ctx.fail(case | {"item": i}, f"nonfinite: item {i} of a {U.ALG[name]} batch {tuple(shape)} (layout {api}, {tag} degenerate) is not finite; x = {r64[i]}")
+                continue
+            if api == 0:
+                ref = (T, M)
+                # the special items and two generic ones against the same call on the item alone, and to the model
+                for i in sorted(set(deg[:3] + deg[-1:] + [1, n // 2])):
+                    Ti, Mi, _, _ = run_impl(name, dtype, [r64[i]], (1,), 0)
+                    if not (torch.equal(Ti[0], T[i]) and torch.equal(Mi[0], M[i])):
+                        ctx.fail(case | {"item": i}, f"alone: item {i} of a {U.ALG[name]} batch {tuple(shape)} ({dtype}, {tag} degenerate) differs from the same "
+                                                     f"element evaluated alone: {T[i].tolist()} vs {Ti[0].tolist()}; x = {r64[i]}")
+                    lines.append(U.model_call(f"c01.{U.ALG[name]}", e, r64[i]))
+                    metas.append((case, i, T[i].tolist(), M[i].tolist()))
+                    ctx.note_case((name, dtype, regime_tag(name, r64[i], e), "minority", tag), True)
+            elif ref is not None:
+                neq = (~(T == ref[0])).any(dim=1) | (~(M == ref[1])).any(dim=1)
+                if bool(neq.any()):
+                    i = int(neq.nonzero()[0])
+                    ctx.fail(case | {"item": i}, f"layout: item {i} of a {U.ALG[name]} batch {tuple(shape)} ({dtype}, {tag} degenerate) with permuted batch strides "
+                                                 f"(layout {api}) differs from the contiguous clone: {T[i].tolist()} vs {ref[0][i].tolist()}; x = {r64[i]}")
+                    # the same item of THIS layout to the model / oracle as well
+                    lines.append(U.model_call(f"c01.{U.ALG[name]}", e, r64[i]))
+                    metas.append((case, i, T[i].tolist(), M[i].tolist()))
 
 # ----------------------------------------------------------------------------- large batches (internal block boundaries)
 
@@ -1102,6 +1209,8 @@ def _other_ops(P, name, D, shape, rng_state):
           ("identity_like", lambda X: P.identity_like(X).tensor()), ("euler", lambda X: X.euler()),
           ("cumprod", lambda X: X.cumprod(0).tensor() if X.dim() > 1 else X.tensor()), ("alg.Jr", lambda X: X.Log().Jr())]
     out = []
+    if rng_state[-1] == "quick":
+        fw = [t_ for t_ in fw if t_[0] not in ("identity_like", "euler", "cumprod", "Log.Exp", "add", "rotation")]
     for label, f in fw:
         if len(shape) <= 1 and n == 1:      # forward alone on the degenerate shapes; elsewhere the backward variant contains the forward
             out.append((f"{name}.{label}", lambda f=f: f(G()[0])))
@@ -1149,11 +1258,11 @@ def interleave_probe(ctx: Ctx, lines, metas):
             except Exception as ex:
                 ctx.fail({"stream": "interleave", "type": name, "dtype": dtype, "X": r64},
                          f"raises: Exp/matrix on {U.ALG[name]} {dtype} raised {type(ex).__name__}: {str(ex)[:140]}")
-    state = [0]
+    state = [0, "quick" if ctx.quick else "thorough"]
     poisoned = set()
     for dtype in ("float64", "float32"):
         D = U.dt(dtype)
-        for shape in ((), (1,), (1, 1), (3,)):
+        for shape in (((), (1,), (3,)) if ctx.quick else ((), (1,), (1, 1), (3,))):
             for gname in U.GROUPS:
                 ops = _other_ops(P, gname, D, shape, state)
                 for oi, (label, thunk) in enumerate(ops):
@@ -1227,7 +1336,7 @@ def dtype_probe(ctx: Ctx):
     common.EPS.setdefault("bfloat16", 2.0 ** -7)
     for rep, (case, name, xi, gt, gm) in zip(ctx.driver.run(lines), metas):
         g = U.GDIM[name]
-        w = U.fl(common.reply_nums(rep))
+        w = fast_nums(rep)
         bad = bad_blocks(item_errors(name, "bfloat16", xi, gt, gm, w[:g], w[g:]))
         ctx.note_case(("dtype", name, "bfloat16", tuple(xi)), True)
         if bad:
@@ -1332,8 +1441,8 @@ def run_scatter(ctx: Ctx, n_batches):
     reps = ctx.driver.run(lines)
     for j, (dtype, s64, Q, W) in enumerate(metas):
         e = common.EPS[dtype]
-        mq = U.fl(common.reply_nums(reps[2 * j]))
-        mw = U.fl(common.reply_nums(reps[2 * j + 1]))
+        mq = fast_nums(reps[2 * j])
+        mw = fast_nums(reps[2 * j + 1])
         for i, xi in enumerate(s64):
             ctx.note_case(("scatter", dtype, regime_tag("Sim3", xi, e)), True)
             dq = U.quat_dist(Q[i], mq[4 * i:4 * i + 4])
@@ -1493,6 +1602,7 @@ def _run(ctx: Ctx):
     interleave_probe(ctx, lines, metas)
     dtype_probe(ctx)
     run_corpus(ctx, lines, metas)
+    run_minority(ctx, lines, metas)
     run_grid(ctx, lines, metas, reps_per_cell=ctx.pick(1, 10))
     run_random(ctx, ctx.pick(600, 20000), lines, metas)
     run_repeat(ctx, ctx.pick(12, 400), lines, metas)
